@@ -37,7 +37,9 @@ func init() {
 		Rule: "One case = one history on the real app (3-5 validators, 6 users, 1-2 EVM chains with the bridge active, a pool of 10 licensee keys, 2 denoms). " +
 			"A history is a seeded biased random walk over: direct licence tx (hostile addresses/amounts/months), attested sale block (1-2 claims, all validators or minority-then-rest; " +
 			"amounts pinned to funder balances +-1), activation (licensee / impostor / no licence / again), auth, legacy import, governance set funders/fee granter/sale contracts " +
-			"(incl. removal), funder balance moves, gifts, licensee spending, time travel (hours..years) and vesting probes. 'evaluations' counts field comparisons of the predicted " +
+			"(incl. removal), funder balance moves, gifts, licensee spending, time travel (hours..years) and vesting probes; half-way every history runs one scripted authorisation sweep " +
+			"(everything but the sale contract in place; the claim's chain has no contract registered anywhere / only other chain references have / has one; one attested sale per boundary value " +
+			"of the contract-address field - empty, blank, 0x, zero address, case/prefix/padding variants, near misses, other chains' contract - plus an unknown chain reference, then the exact address as positive control). 'evaluations' counts field comparisons of the predicted " +
 			"against the observed state plus invariant and vesting-probe checks. A distinct non-trivial case = (operation kind, predicted class, outcome, configuration bits, " +
 			"#open licences, #activated, funder-balance situation) seen with at least one licence or a configured sale path.",
 		Assumptions: []string{
